@@ -92,6 +92,8 @@ class C05S(SchedProp):
         'CylcModel.C05S.release_limit',
         'CylcModel.C05S.release_and_prepare_limit',
         'CylcModel.C05S.launch_only_in_main_loop',
+        'CylcModel.C05S.queue_order_step',
+        'CylcModel.C05S.queue_order_release',
         'CylcModel.C05S.Inv_queue_step',
         'CylcModel.C05S.Inv_queue_partial',
         'CylcModel.C05S.Inv_queue_counterexample',
@@ -110,7 +112,10 @@ class C05S(SchedProp):
         'released members of a queue with limit L > 0 plus its members that are preparing / submitted / running / '
         'waiting on job preparation stay within L or nothing is released, and release + job preparation never takes '
         'a queue above max(L, previous count) (release_limit, release_and_prepare_limit); jobs are launched only by '
-        'the release step of a main loop (launch_only_in_main_loop). PARTIAL on the run-level Inv_queue: the '
+        'the release step of a main loop (launch_only_in_main_loop); queue order at run level: over ANY operation '
+        '(main loop, message, command, restart) every deque afterwards is a sublist of the deque before followed by '
+        'the tasks queued by that operation, so tasks leave a queue in the order they entered it '
+        '(queue_order_step, queue_order_release). PARTIAL on the run-level Inv_queue: the '
         'unrestricted statement "after any op every limited queue has at most L active members" (Inv_queue_full) is '
         'false in the model and in the code it follows - a job message can move a waiting task to running without '
         'passing its queue (Inv_queue_counterexample: a "started" message for a waiting queued task); proved instead: '
